@@ -50,26 +50,33 @@ func (checker *ChecksumChecker) IsUpToDate(t *ast.Task) (bool, error) {
 		}
 	}
 
-	if len(t.Generates) > 0 {
-		// For each specified 'generates' field, check whether the files actually exist
-		for _, g := range t.Generates {
-			if g.Negate {
-				continue
-			}
-			generates, err := glob(t.Dir, g.Glob)
-			if os.IsNotExist(err) {
-				return false, nil
-			}
-			if err != nil {
-				return false, err
-			}
-			if len(generates) == 0 {
-				return false, nil
-			}
-		}
+	// Check whether the files of every 'generates' entry actually exist
+	if exist, err := generatesExist(t); !exist || err != nil {
+		return false, err
 	}
 
 	return oldHash == newHash, nil
+}
+
+// generatesExist reports whether every non-negated 'generates' entry of the
+// task matches at least one existing file.
+func generatesExist(t *ast.Task) (bool, error) {
+	for _, g := range t.Generates {
+		if g.Negate {
+			continue
+		}
+		generates, err := glob(t.Dir, g.Glob)
+		if os.IsNotExist(err) {
+			return false, nil
+		}
+		if err != nil {
+			return false, err
+		}
+		if len(generates) == 0 {
+			return false, nil
+		}
+	}
+	return true, nil
 }
 
 func (checker *ChecksumChecker) Value(t *ast.Task) (any, error) {
